@@ -112,6 +112,8 @@ ob("c02::canary_new_add_lo_zero", "C02", cls="canary", timeout=300, expect="refu
 ob("c02::from_f64_exact", "C02", cls="leaf", timeout=120, functions=["TwoFloat::from_f64", "From<f64> for TwoFloat"])
 ob("c02::new_mul_hi", ["C02", "C04"], cls="leaf", timeout=300, functions=["TwoFloat::new_mul"], backend="cbmc+cvc5")
 ob("c02::new_mul_is_two_prod", ["C02", "C04"], cls="miter", timeout=300, functions=["TwoFloat::new_mul"], backend="cbmc+cvc5", share=True)
+ob("c02::new_mul_exact_b31", ["C02", "C04"], tier="experimental", cls="bounded", timeout=10800, functions=["TwoFloat::new_mul"],
+   bound={"significand_bits": 31, "exponents": "within 100 binades of 1"})
 ob("c02::new_mul_valid", ["C02", "C01", "C04"], tier="thorough", cls="leaf", timeout=9000, functions=["TwoFloat::new_mul"])
 ob("c02::fts_far", ["C02", "C01", "C03"], cls="leaf", timeout=300, functions=_FTS)
 ob("c02::fts_zero", ["C02", "C01", "C03"], cls="leaf", timeout=300, functions=_FTS)
@@ -278,7 +280,7 @@ def select(prop, tier, seed=0):
     """obligations run by `check <prop> --tier <tier>`: the rows owned by the property (first entry of
     props).  Rows that merely serve the property are discharged by their owner's check and are listed
     in the evidence under `rests_on`."""
-    rows = [o for o in ALL if (o["props"][0] == prop or ((o.get("native") or o.get("share")) and prop in o["props"])) and o["tier"] not in ("rotated", "witness") and (tier == "thorough" or o["tier"] == "quick")]
+    rows = [o for o in ALL if (o["props"][0] == prop or ((o.get("native") or o.get("share")) and prop in o["props"])) and o["tier"] not in ("rotated", "witness", "experimental") and (tier == "thorough" or o["tier"] == "quick")]
     if tier == "thorough":
         # seed-rotated sample of the ghost-value accuracy obligations (tier "rotated"): gaps 0, +-1, +-53 always,
         # plus 7 seeded gaps per algorithm variant; the evidence lists exactly the (variant, gap) pairs discharged
